@@ -308,6 +308,15 @@ class PuritySim(Sim):
         if not cl.pool:
             return
         s = cl.pool[i % len(cl.pool)]
+        import copy as _copy
+
+        d = sut(_copy.deepcopy, s)
+        if isinstance(d, Raised):
+            self.violate('purity', 'copy_raised', 'copy.deepcopy', d.type, repr(d))
+            return
+        if state_key(d) != state_key(s) or sut(lambda: d.grid == s.grid and d.agent == s.agent and hash(d.grid) == hash(s.grid)) is not True:
+            self.violate('purity', 'copy_differs', 'copy.deepcopy', 'digest', 'a deep-copied state is structurally different or does not equal / hash like its original')
+            return
         c = sut(fast_copy, s)
         self.ctx.probe('copy_probe')
         if isinstance(c, Raised):
